@@ -217,6 +217,56 @@ def compare_coordinates(ref, other, record):
     return None
 
 
+BONDI_NM = {'H': 0.12, 'C': 0.17, 'N': 0.155, 'O': 0.152, 'S': 0.18, 'P': 0.18, 'F': 0.147}
+
+
+def overbonded_hydrogen_residues(pdb_path):
+    """Residues (chain, resid) of the input that hold a hydrogen lying within the documented distance criterion for a bond
+    (1.2 x half the sum of the Bondi radii, the C10 rule) of two or more non-hydrogen atoms of its own residue.  Such a
+    hydrogen gets one bond when its name is known to the force field (bonds by name) and two when it is not (bonds by
+    distance); with two it no longer fits the residue template, is dropped and rebuilt without coordinates."""
+    with open(pdb_path) as f:
+        atoms = pdbread.read_pdb_text(f.read())['atoms']
+    by_res = {}
+    for a in atoms:
+        by_res.setdefault((a['chain'], a['resid'], a['icode']), []).append(a)
+    out = set()
+    order = {key: i for i, key in enumerate(by_res)}
+    for key, lst in by_res.items():
+        def el(a):
+            e = (a['element'] or '').capitalize()
+            return e if e else ('H' if a['name'].lstrip('0123456789')[:1] == 'H' else a['name'].lstrip('0123456789')[:1])
+        hs = [a for a in lst if el(a) == 'H']
+        heavy = [a for a in lst if el(a) != 'H' and el(a) in BONDI_NM]
+        for h in hs:
+            n = 0
+            for x in heavy:
+                d = math.dist((h['x'], h['y'], h['z']), (x['x'], x['y'], x['z'])) / 10.0
+                if d <= 1.2 * 0.5 * (BONDI_NM['H'] + BONDI_NM[el(x)]):
+                    n += 1
+            if n >= 2:
+                out.add((key[0], key[1]))
+                out.add(('#', order[key]))
+    out.add(('#n', len(by_res)))
+    return out
+
+
+def moved_residues(ref, other):
+    """-> (set of (chain, resid) of displaced particles, set of their residue ordinals in the file, number of residues)"""
+    out, ordinals = set(), set()
+    seen = {}
+    prev = None
+    for a, c in zip(ref['pdb']['atoms'], other['pdb']['atoms']):
+        key = (a['chain'], a['resid'], a['resname'])
+        if key != prev:
+            seen[len(seen)] = key
+            prev = key
+        if max(abs(a[k] - c[k]) for k in 'xyz') > 2.5e-3:
+            out.add((a['chain'], a['resid']))
+            ordinals.add(len(seen) - 1)
+    return out, ordinals, len(seen)
+
+
 def cases(tier, seed):
     rnd = harness.rng('C11plan', seed)
     out = []
@@ -285,6 +335,23 @@ def run_case(params):
             p, adm = compare(ref, other, exact=(kind == 'hashseed'), upper=upper)
             if not p:
                 p = compare_coordinates(ref, other, record)
+            if p and kind == 'rename-h' and p[0] == 'pdb/coordinates-not-co-moving':
+                # classify by mechanism: are all displaced particles in residues holding a hydrogen that the distance rule
+                # bonds to two heavy atoms?  (particle records carry the input residue numbers only with -resid input or
+                # when numbering starts at 1; otherwise the residues simply do not match and the violation stays unclassified)
+                moved, ordinals, nres = moved_residues(ref, other)
+                suspects = overbonded_hydrogen_residues(pdb)
+                if ('#n', nres) in suspects:      # one output residue per input residue: match them by position in the file
+                    explained = bool(ordinals) and all(('#', i) in suspects for i in ordinals)
+                else:
+                    explained = bool(moved) and all((c, r) in suspects or ('', r) in suspects for c, r in moved)
+                suspects = sorted(x for x in suspects if x[0] not in ('#', '#n'))
+                if explained:
+                    b.violation('rename-h/hydrogen-within-bond-distance-of-two-heavy-atoms',
+                                'a hydrogen whose name the force field does not know is bonded by distance to two heavy atoms, '
+                                'dropped and rebuilt without coordinates: particle positions depend on hydrogen names',
+                                dict(desc, detail=p[1], displaced_residues=sorted(moved), residues_with_such_hydrogens=sorted(suspects)))
+                    continue
             if p:
                 b.violation('%s/%s' % (kind, p[0]), 'topology depends on the presentation (%s: %s)' % (kind, p[0]), dict(desc, detail=p[1]))
                 continue
